@@ -291,7 +291,15 @@ func tryEdit(rng *rand.Rand, n *Repo, o EditOpts) (Edit, bool) {
 	case 19: // add a new leaf target consuming existing ones
 		i := len(n.Targets)
 		name := fmt.Sprintf("t%d", i)
-		for n.Target("//"+n.Targets[0].Pkg+":"+name) != nil {
+		taken := func(name string) bool {
+			for _, x := range n.Targets {
+				if x.Name == name {
+					return true
+				}
+			}
+			return false
+		}
+		for taken(name) {
 			i++
 			name = fmt.Sprintf("t%d", i)
 		}
